@@ -47,6 +47,13 @@ structure Cfg.Good (c : Cfg) : Prop where
   /-- `_Ipv6UnsupportedError`: raised by decode_address when `supports_ipv6()` is false, and the line is skipped -/
   v6RaiseUnsupported : c.v6RaiseUnsupported = true
   v6SkipLine : c.v6SkipLine = true
+  /-- decode_address: the IPv4 string is byte-reversed on a little-endian host only, the IPv6 words are swapped on a
+      little-endian host only (translator fact `ntopCalls`: the second argument of each of the four `inet_ntop` calls) -/
+  v4RevLE : c.v4RevLE = true
+  v4RevBE : c.v4RevBE = false
+  v6SwapLE : c.v6SwapLE = true
+  v6SwapBE : c.v6SwapBE = false
+  ntopKnown : c.ntopKnown = true
 
 theorem Cfg.Good.status {c : Cfg} (hg : c.Good) (st : Nat) (h1 : 1 ≤ st) (h2 : st ≤ 11) :
     c.tcpStatuses.lookup (hexW 2 st) = stateName st := by
@@ -158,7 +165,7 @@ theorem decode_v4 (c : Cfg) (hg : c.Good) (ip : Bytes) (hl : ip.length = 4) (hb 
     simp only [b16decode_renderWords c.littleEndian 1 ip (by omega) hb, hg.afInet, if_true]
     match ip, hl with
     | [b0, b1, b2, b3], _ =>
-      cases c.littleEndian <;> simp [perWord, swap32, endpoint]
+      cases hle : c.littleEndian <;> simp [perWord, swap32, endpoint, Cfg.v4Rev, hle, hg.v4RevLE, hg.v4RevBE]
 
 theorem decode_v6 (c : Cfg) (hg : c.Good) (ip : Bytes) (hl : ip.length = 16) (hb : ∀ b ∈ ip, b < 256)
     (port : Nat) (hp : port < 65536) :
@@ -174,8 +181,8 @@ theorem decode_v6 (c : Cfg) (hg : c.Good) (ip : Bytes) (hl : ip.length = 16) (hb
     have hne : ¬ (10 = 2) := by decide
     simp only [hne, if_false]
     cases hle : c.littleEndian
-    · simp [perWord, hl, endpoint, hg.ntop6]
-    · simp [perWord, swap32_length 4 ip h4, swap32_swap32 4 ip h4, hl, endpoint, hg.ntop6]
+    · simp [perWord, hl, endpoint, hg.ntop6, Cfg.v6Swap, hle, hg.v6SwapBE]
+    · simp [perWord, swap32_length 4 ip h4, swap32_swap32 4 ip h4, hl, endpoint, hg.ntop6, Cfg.v6Swap, hle, hg.v6SwapLE]
 
 theorem stateName_some (st : Nat) (h1 : 1 ≤ st) (h2 : st ≤ 11) : ∃ n, stateName st = some n := by
   match st, h1, h2 with
